@@ -22,9 +22,9 @@ func DrawTrivia(t *rapid.T, st TriviaStyle) string {
 	if st.Exotic {
 		ws = append(ws, "\r\n", "\f", "\v", "\r\n\r\n", " \r\n\t")
 	}
-	n := rapid.IntRange(0, 99).Draw(t, "triv")
+	n := Uniform(t, 100, "triv")
 	if !st.Comments || n < 70 {
-		return rapid.SampledFrom(ws).Draw(t, "ws")
+		return Pick(t, ws, "ws")
 	}
 	words := commentWords
 	if st.MultiByte {
@@ -34,7 +34,7 @@ func DrawTrivia(t *rapid.T, st TriviaStyle) string {
 	k := rapid.IntRange(1, 3).Draw(t, "ncomments")
 	for i := 0; i < k; i++ {
 		sb.WriteString(rapid.SampledFrom([]string{"", " ", "\n", "\n\n", "  ", "\t"}).Draw(t, "pre"))
-		w := rapid.SampledFrom(words).Draw(t, "cw")
+		w := Pick(t, words, "cw")
 		if rapid.Bool().Draw(t, "line") {
 			w = strings.ReplaceAll(w, "\n", " ")
 			sb.WriteString("//" + rapid.SampledFrom([]string{"", " ", "/", "  "}).Draw(t, "lp") + w + "\n")
